@@ -2,11 +2,13 @@
 import itertools, random, re
 from nodegen import *
 import netfam
+import schedgen
+from schedgen import par, parse_par
 from common import hexs
 
 ID = "C17"
 DRIVER = "node"
-MODEL_FILES = ["Model/Base.v", "Model/Parse.v", "Model/Node.v", "Model/Net.v"]
+MODEL_FILES = ["Model/Base.v", "Model/Parse.v", "Model/Node.v", "Model/Net.v", "Model/Sched.v"]
 THEOREMS = ["C17_conn_init", "C17_conn_step", "C17_conn_run", "C17_conn_never_negative", "C17_conn_back_to_previous", "C17_usedb_wrong_token_noop", "C17_conn_key_run", "C17_conn_key_run_from_init", "C17_conn_watchers_notified", "C17_conn_full_run", "C17_key_stuck_at_saturated_version_refuted", "C17_inv_needs_sel_exists", "C17_net_conn_step", "C17_net_conn_run", "C17_net_conn_run_from_init"]
 STRENGTH = {t: "proof-unbounded" for t in THEOREMS}
 RULE = ("exhaustive event sequences (length <= 4 quick / 5 thorough) over connect / use-db {d1, d2, wrong token, user token, "
@@ -39,7 +41,71 @@ OTHER = ["get a", "set a 1", "keys", "watch a", "unwatch-all", "increment c", "r
 
 
 def driver_of(case):
-    return "net" if case[0].startswith("t") else ("burst" if case[0].startswith("z") else "node")
+    return {"t": "net", "z": "burst", "p": "sched"}.get(case[0][0], "node")
+
+
+UREL = 8       # releases a use-db may need: cmd, token check, and up to three publish rounds (write + notify)
+
+
+def sched_cases(tier, rng, dist):
+    """two or three sessions selecting (and so leaving) databases at the same time, under every schedule at lock granularity
+    (yield points before every acquisition of Database.map / Watchers.map); session 0 watches $connections of d1"""
+    out = []
+    limit = {"quick": 60, "thorough": 400, "search": 30}[tier]
+    lines = ["use-db d1 t1", "use-db d2 t2", "use-db d1 bad", "use-db d1 bob pw", "use d2 t2", "use-db nope t1"]
+    progs = [[["use-db d1 t1"], ["use-db d1 t1"]], [["use-db d1 t1", "use-db d2 t2"], ["use-db d1 t1"]],
+             [["use-db d2 t2"], ["use-db d1 t1", "use-db d2 t2"]], [["use-db d1 t1"], ["use-db d1 t1"], ["use-db d1 t1"]]]
+    for _ in range({"quick": 12, "thorough": 120, "search": 6}[tier]):
+        progs.append([[rng.choice(lines) for _ in range(rng.randint(1, 2))] for _ in range(rng.choice([2, 2, 3]))])
+    k = 0
+    for prog in progs:
+        lengths = [4 * len(p) for p in prog]
+        for sch in schedgen.all_schedules(lengths, limit, rng):
+            ops = [["conn"] for _ in range(len(prog) + 1)]
+            ops += [C(0, "auth nun pwd"), C(0, "create-db d1 t1"), C(0, "create-db d2 t2"), C(0, "use-db d1 t1"), C(0, "create-user bob pw"),
+                    C(0, "watch $connections")]
+            pre = rng.random()
+            if pre < 0.3:
+                ops.append(C(1, "use-db d2 t2"))          # one of the sessions arrives with a selection
+            ops.append(par([(i + 1, p) for i, p in enumerate(prog)], sch))
+            ops += [C(0, "get $connections")]
+            out.append(("p%d" % k, ["P"], ops)); k += 1
+    dist["schedules"] = k
+    return out
+
+
+def sched_oracle(case, io, mo):
+    """after the parallel section: every database's counter equals the number of sessions that selected it, its $connections
+    key says the same, and the last thing the watcher of d1 was told is that number"""
+    fails = []
+    obs = split_obs(io)
+    pi = next(i for i, op in enumerate(case[2]) if op[0] == "par")
+    if pi >= len(obs):
+        return [("driver-died", "before the parallel section")]
+    reply, inb, q, dump = obs[pi]
+    if "PANIC" in reply or reply.startswith("HANG"):
+        fails.append(("panic", reply[:200]))
+    sel = {}
+    for m in SESS_RE.finditer(dump):
+        db = m.group(3)
+        if db != "-":
+            sel[unesc(db)] = sel.get(unesc(db), 0) + 1
+    for name in ("d1", "d2"):
+        sec = db_section(dump, name)
+        if not sec:
+            continue
+        conn = int(sec.group(3))
+        keys = db_keys(dump, name)
+        if conn != sel.get(name, 0):
+            fails.append(("counter-mismatch", "after the parallel section %s counts %d, %d sessions selected it" % (name, conn, sel.get(name, 0))))
+        if "$connections" in keys and keys["$connections"][0] != str(conn):
+            fails.append(("key-mismatch", "after the parallel section the $connections key of %s says %s, its counter %d" % (name, keys["$connections"][0], conn)))
+    sec = db_section(dump, "d1")
+    told = [x for x in inbox_of(inb, 0) if x.startswith("changed $connections ")]
+    if sec and told and told[-1] != "changed $connections %s\n" % sec.group(3):
+        fails.append(("watcher-missed-change", "the watcher of d1 was last told %r, the counter is %s" % (told[-1], sec.group(3))))
+    return fails
+
 
 
 def build(seq, http_takes_sid=True):
@@ -72,6 +138,7 @@ def build(seq, http_takes_sid=True):
 def gen_cases(tier, seed):
     rng = random.Random(seed)
     cases, dist = [], {"exhaustive": 0, "random": 0, "events": {}}
+    cases += sched_cases(tier, random.Random(seed + 3), dist)
     maxlen, nrand = {"quick": (4, 2500), "thorough": (5, 40000), "search": (3, 3000)}[tier]
     al = [("conn",), ("disc", 0), ("disc", 1), ("use", 0, USES[0]), ("use", 0, USES[1]), ("use", 1, USES[0]),
           ("use", 0, USES[2]), ("use", 0, USES[3]), ("http", HTTPS[2]), ("http", HTTPS[3])]
@@ -183,6 +250,8 @@ def burst_oracle(case, io, mo):
 
 
 def oracle(case, io, mo):
+    if case[0].startswith("p"):
+        return sched_oracle(case, io, mo)
     if case[0].startswith("z"):
         return burst_oracle(case, io, mo)
     if case[0].startswith("t"):
@@ -231,7 +300,7 @@ def oracle(case, io, mo):
 
 
 def nontrivial(case, io):
-    if case[0].startswith("z"):
+    if case[0].startswith("z") or case[0].startswith("p"):
         return True
     seen = set()
     for o in split_obs(io)[len(SETUP):]:
